@@ -2,7 +2,7 @@
 # Runs every mechanical behaviour-preserving rewrite against every check (false-alarm regression).
 cd /verif
 rc=0
-for m in locals funcs reorder swapeq lencmp logparams; do
+for m in locals funcs types globals reorder swapeq lencmp logparams idxloop negif; do
   tools/benign_global.sh $m "$@" | grep -v " silent$" && rc=1
 done
 [ $rc -eq 0 ] && echo "all mechanical rewrites: every check silent"
